@@ -328,14 +328,41 @@ def unit_quadratic_form(kind):
     return Unit('builtin/quadratic_form/%s' % kind, run, funcs=[DF + 'QuadraticForm.__init__', DF + 'QuadraticForm._call', FN + 'Functional.__mul__'], config={'kind': kind})
 
 
+
+def unit_functional_pool_bounded():
+    """BOUNDED stand-in (never counted as proved) for the built-in functionals outside the deductive units (sort / SVD / group-norm based closed forms,
+    weighted power spaces, domains with several axes): one small instance per functional x space in contracts/funcpool.py, fixed random inputs: inner(gradient(x), d) == derivative(x)(d) == central differences of the values in the inner product of the space"""
+    def run(ctx):
+        from contracts import funcpool
+        for name in sorted(funcpool.pool()):
+            try:
+                bad, n = funcpool.check_grad(name)
+            except Exception as e:
+                bad, n = 'check raised %s: %s' % (type(e).__name__, str(e)[:200]), 1
+            if n == 0 and not bad:
+                continue
+            ctx.evals += max(n - 1, 0)
+            ctx.bounded('built-in functional: gradient == derivative of the values', not bad, {'functional': name}, detail=bad)
+    return Unit('functional-pool/gradient', run, funcs=['odl.solvers.functional.default_functionals:*', 'odl.solvers.nonsmooth.proximal_operators:*'], kind='B',
+                bounded_in='one small instance per built-in functional x space in contracts/funcpool.py (130 entries), 2 step sizes x 3 random points x ~60 probes')
+
+
 def units(tier, seed):
     us = [unit_derived(k) for k in KINDS]
     us += [unit_quadratic_form(k) for k in ('vector_only', 'vector_only_zero_const', 'operator')]
     us += [unit_overload(d) for d in ('__mul__', '__rmul__', '__add__', '__sub__')]
+    us.append(unit_functional_pool_bounded())
     us.append(unit_canary())
     return us
 
 
 def replay(ob):
+    if ob.get('unit', '').startswith('functional-pool/'):
+        from contracts import funcpool
+        try:
+            bad = funcpool.check_grad((ob.get('model') or {}).get('functional'))[0]
+        except Exception as e:
+            bad = 'raised %s: %s' % (type(e).__name__, e)
+        return {'reproduced': bool(bad), 'detail': bad or 'holds natively', 'input': ob.get('model')}
     from contracts import replay_c09
     return replay_c09.replay(ob)
